@@ -103,6 +103,7 @@ type vfC03Cfg struct {
 	tdb     int
 	dbmap   map[int]int
 	now     uint64
+	flt     *vfc03.FilterSpec
 }
 
 func (c vfC03Cfg) dbmapStr() string {
@@ -129,7 +130,42 @@ func b2i(b bool) int {
 }
 
 func (c vfC03Cfg) String() string {
-	return fmt.Sprintf("%d %d %d %d %d %d %d %d %s %d", c.thr, c.tgt, c.fnex, b2i(c.modaux), b2i(c.restore), c.bulk, c.par, c.tdb, c.dbmapStr(), c.now)
+	f := c.flt
+	if f == nil {
+		f = &vfc03.FilterSpec{}
+	}
+	return fmt.Sprintf("%d %d %d %d %d %d %d %d %s %d %s", c.thr, c.tgt, c.fnex, b2i(c.modaux), b2i(c.restore), c.bulk, c.par, c.tdb, c.dbmapStr(), c.now, f.Tokens())
+}
+
+// filterConfig is the configuration handed to the real RedisOutput.
+func (c vfC03Cfg) filterConfig() config.FilterConfig {
+	fc := config.FilterConfig{}
+	f := c.flt
+	if f == nil {
+		return fc
+	}
+	fc.DbBlacklist = append(fc.DbBlacklist, f.DbBlack...)
+	if len(f.PBlack) > 0 || len(f.PWhite) > 0 {
+		kf := &config.FilterKeyConfig{}
+		for _, p := range f.PBlack {
+			kf.PrefixKeyBlacklist = append(kf.PrefixKeyBlacklist, string(p))
+		}
+		for _, p := range f.PWhite {
+			kf.PrefixKeyWhitelist = append(kf.PrefixKeyWhitelist, string(p))
+		}
+		fc.KeyFilter = kf
+	}
+	if len(f.SBlack) > 0 || len(f.SWhite) > 0 {
+		sf := &config.FilterSlotConfig{}
+		for _, r := range f.SBlack {
+			sf.KeySlotBlacklist = append(sf.KeySlotBlacklist, []uint16{uint16(r[0]), uint16(r[1])})
+		}
+		for _, r := range f.SWhite {
+			sf.KeySlotWhitelist = append(sf.KeySlotWhitelist, []uint16{uint16(r[0]), uint16(r[1])})
+		}
+		fc.SlotFilter = sf
+	}
+	return fc
 }
 
 func (c vfC03Cfg) mapDB(db int) int {
@@ -175,6 +211,7 @@ func vfC03Send(t *testing.T, data []byte, c vfC03Cfg, pre []vfC03Pre) (tg *vfc03
 			BatchTicker:            time.Hour,
 			KeepaliveTicker:        time.Hour,
 			UpdateCheckpointTicker: time.Hour,
+			Filter:                 c.filterConfig(),
 			Redis: config.RedisConfig{
 				Type:    config.RedisTypeStandalone,
 				Version: fmt.Sprintf("%d.0.0", c.tgt),
@@ -271,6 +308,63 @@ func TestVerifC03Replay(t *testing.T) {
 		}
 		return c
 	}
+	// output filter: mostly aimed at keys of the dataset, preferably at the first key of a DB
+	randFilter := func(ds *vfc03.Dataset) *vfc03.FilterSpec {
+		f := &vfc03.FilterSpec{}
+		if len(ds.Keys) == 0 || r.Chance(2, 5) {
+			return f
+		}
+		var firsts []vfc03.ExpKey
+		seen := map[int]bool{}
+		for _, k := range ds.Keys {
+			if !seen[k.DB] {
+				seen[k.DB] = true
+				firsts = append(firsts, k)
+			}
+		}
+		pickKey := func() vfc03.ExpKey {
+			if r.Bool() {
+				return vfutil.Pick(r, firsts)
+			}
+			return vfutil.Pick(r, ds.Keys)
+		}
+		prefix := func() []byte {
+			k := pickKey().Key
+			n := r.Range(1, vfutil.Min(3, len(k)))
+			return append([]byte{}, k[:n]...)
+		}
+		if r.Chance(1, 5) {
+			f.DbBlack = append(f.DbBlack, vfutil.Pick(r, ds.Keys).DB)
+		}
+		if r.Chance(1, 3) {
+			for i := 0; i < r.Range(1, 2); i++ {
+				f.PBlack = append(f.PBlack, prefix())
+			}
+		}
+		if r.Chance(1, 6) {
+			for i := 0; i < r.Range(1, 4); i++ {
+				f.PWhite = append(f.PWhite, prefix())
+			}
+		}
+		around := func() [2]int {
+			sl := vfc03.HashSlot(pickKey().Key)
+			return [2]int{vfutil.Max(0, sl-r.Intn(20)), vfutil.Min(16383, sl+r.Intn(20))}
+		}
+		if r.Chance(1, 4) {
+			for i := 0; i < r.Range(1, 2); i++ {
+				f.SBlack = append(f.SBlack, around())
+			}
+		}
+		if r.Chance(1, 6) {
+			for i := 0; i < r.Range(1, 3); i++ {
+				f.SWhite = append(f.SWhite, around())
+			}
+			if r.Bool() {
+				f.SWhite = append(f.SWhite, [2]int{0, r.Range(4000, 12000)})
+			}
+		}
+		return f
+	}
 	randPre := func(ds *vfc03.Dataset, c vfC03Cfg) []vfC03Pre {
 		var pre []vfC03Pre
 		for _, k := range ds.Keys {
@@ -288,16 +382,22 @@ func TestVerifC03Replay(t *testing.T) {
 		return pre
 	}
 
-	// ---- corpus: "l2 <cfg…> <npre> (<db> <hexkey>)* FILE" (pre-existing keys are strings "old")
+	// ---- corpus: "l2 <cfg…> <5 filter tokens> <npre> (<db> <hexkey>)* FILE" (pre-existing keys are strings "old")
 	for _, l := range vfutil.Corpus("C03") {
 		f := strings.Fields(l)
-		if len(f) < 13 || f[0] != "l2" {
+		if len(f) < 18 || f[0] != "l2" {
 			continue
 		}
 		var c vfC03Cfg
 		var ma, re, npre int
 		var dm string
-		fmt.Sscanf(strings.Join(f[1:12], " "), "%d %d %d %d %d %d %d %d %s %d %d", &c.thr, &c.tgt, &c.fnex, &ma, &re, &c.bulk, &c.par, &c.tdb, &dm, &c.now, &npre)
+		fmt.Sscanf(strings.Join(f[1:11], " "), "%d %d %d %d %d %d %d %d %s %d", &c.thr, &c.tgt, &c.fnex, &ma, &re, &c.bulk, &c.par, &c.tdb, &dm, &c.now)
+		flt, ferr := vfc03.ParseFilter(f[11:16])
+		if ferr != nil {
+			t.Fatalf("corpus line: %v: %q", ferr, l)
+		}
+		c.flt = flt
+		fmt.Sscanf(f[16], "%d", &npre)
 		c.modaux, c.restore = ma == 1, re == 1
 		if dm != "-" {
 			c.dbmap = map[int]int{}
@@ -310,17 +410,18 @@ func TestVerifC03Replay(t *testing.T) {
 		var pre []vfC03Pre
 		for i := 0; i < npre; i++ {
 			var db int
-			fmt.Sscanf(f[12+2*i], "%d", &db)
-			pre = append(pre, vfC03Pre{db, vfutil.UnHex(f[13+2*i]), &vfc03.Val{Kind: "string", Str: []byte("old")}})
+			fmt.Sscanf(f[17+2*i], "%d", &db)
+			pre = append(pre, vfC03Pre{db, vfutil.UnHex(f[18+2*i]), &vfc03.Val{Kind: "string", Str: []byte("old")}})
 		}
-		cases = append(cases, kase{ds: nil, cfg: c, pre: pre, src: "corpus", desc: strings.Join(f[12+2*npre:], " ")})
+		cases = append(cases, kase{ds: nil, cfg: c, pre: pre, src: "corpus", desc: strings.Join(f[17+2*npre:], " ")})
 	}
 
 	g := vfc03.NewGen(r.Fork())
 	n := vfutil.Scale(220, 5000)
 	for i := 0; i < n; i++ {
-		ds := g.File(vfc03.FileOpts{MaxKeys: 6, Now: now, MultiDB: true, Versions: []int{6, 7, 8, 9, 10, 11, 12, 13}})
+		ds := g.File(vfc03.FileOpts{MaxKeys: 6, Now: now, MultiDB: true, Reserved: true, Versions: []int{6, 7, 8, 9, 10, 11, 12, 13}})
 		c := randCfg(ds)
+		c.flt = randFilter(ds)
 		cases = append(cases, kase{ds: ds, cfg: c, pre: randPre(ds, c), src: "gen", desc: ds.Desc})
 	}
 	descs := make([]string, len(cases))
@@ -366,6 +467,15 @@ func TestVerifC03Replay(t *testing.T) {
 		if k.ds == nil {
 			// corpus case: expectation from the encoder's key list only (payload / presence)
 			for _, m := range o.Keys {
+				if c.flt.DbFiltered(m.DB) || c.flt.KeyFiltered(m.Key) {
+					if _, ok := tg.DBs[c.mapDB(m.DB)][string(m.Key)]; ok {
+						s.Violate("filtered-key-written", fmt.Sprintf("filtered key %x present in db %d", m.Key, c.mapDB(m.DB)), replay)
+					}
+					continue
+				}
+				if vfC03TTL(c.now, m.ExpireAt) == 1 {
+					continue
+				}
 				if _, ok := tg.DBs[c.mapDB(m.DB)][string(m.Key)]; !ok {
 					s.Violate("key-missing", fmt.Sprintf("key %x missing in db %d", m.Key, c.mapDB(m.DB)), replay)
 				}
@@ -388,6 +498,15 @@ func TestVerifC03Replay(t *testing.T) {
 			s.Count("kind_" + ek.Kind)
 			s.Distinct(ek.Kind + "/" + fmt.Sprint(len(ek.Val.Canon())%97))
 			id := fmt.Sprintf("%d/%s", c.mapDB(ek.DB), vfutil.Hex(ek.Key))
+			if c.flt.DbFiltered(ek.DB) || c.flt.KeyFiltered(ek.Key) {
+				// filtered out: must not reach the target (a pre-existing key stays as it was)
+				s.Count("filtered_keys")
+				if j == 0 || k.ds.Keys[j-1].DB != ek.DB {
+					s.Count("filtered_first_of_db")
+				}
+				continue
+			}
+			s.Count("replayed_keys")
 			ttl := vfC03TTL(c.now, ek.ExpireAt)
 			if ttl == 1 {
 				// already past its expiry: must not survive the sync
@@ -425,8 +544,12 @@ func TestVerifC03Replay(t *testing.T) {
 				s.Violate("extra-key", "target has a key the dataset does not: "+id, replay)
 			}
 		}
-		if len(k.ds.Scripts) != len(tg.Scripts) {
-			s.Violate("scripts", fmt.Sprintf("%d lua scripts in snapshot, %d loaded", len(k.ds.Scripts), len(tg.Scripts)), replay)
+		wantScripts := len(k.ds.Scripts)
+		if c.flt.DbFiltered(0) || c.flt.KeyFiltered([]byte("lua")) {
+			wantScripts = 0 // the aux field "lua" goes through the same filter (DB 0, key "lua")
+		}
+		if wantScripts != len(tg.Scripts) {
+			s.Violate("scripts", fmt.Sprintf("%d lua scripts expected, %d loaded", wantScripts, len(tg.Scripts)), replay)
 		}
 	}
 }
